@@ -131,9 +131,16 @@ LHAFileHeader *lha_file_header_read(LHAInputStream *stream)
 SEQ_DECL(u8, env);
 static LHADecoderType dummy_type;
 LHADecoderType *lha_decoder_for_name(char *name) { (void) name; return (served > 0 && mem_supported[served - 1]) ? &dummy_type : NULL; }
+static int live_decoders;
+static LHADecoder *new_decoder(void)
+{
+	LHADecoder *d = counted_alloc(sizeof(struct _LHADecoder), 2);
+	if (d != NULL) { ++live_decoders; CHECK(live_decoders <= 2, "C13: at most one decoder and its MacBinary wrapper are alive at any time (heap bound)"); }
+	return d;
+}
 LHADecoder *lha_decoder_new(LHADecoderType *t, LHADecoderCallback cb, void *cbd, size_t len)
-{ (void) t; (void) cb; (void) cbd; (void) len; return counted_alloc(sizeof(struct _LHADecoder), 2); }
-void lha_decoder_free(LHADecoder *d) { CHECK(d != NULL, "decoder freed is a decoder"); verif_free(d); }
+{ (void) t; (void) cb; (void) cbd; (void) len; return new_decoder(); }
+void lha_decoder_free(LHADecoder *d) { CHECK(d != NULL, "decoder freed is a decoder"); --live_decoders; verif_free(d); }
 void lha_decoder_monitor(LHADecoder *d, LHADecoderProgressCallback cb, void *cbd) { (void) d; (void) cb; (void) cbd; }
 static unsigned dec_reads;
 size_t lha_decoder_read(LHADecoder *d, uint8_t *buf, size_t n)
@@ -146,7 +153,7 @@ size_t lha_decoder_read(LHADecoder *d, uint8_t *buf, size_t n)
 size_t lha_decoder_get_length(LHADecoder *d) { (void) d; return SEQ_NEXT(u8, env) & 1; }
 uint16_t lha_decoder_get_crc(LHADecoder *d) { (void) d; return 0; }
 LHADecoder *lha_macbinary_passthrough(LHADecoder *d, LHAFileHeader *h)
-{ (void) d; (void) h; return (SEQ_NEXT(u8, env) & 1) ? counted_alloc(sizeof(struct _LHADecoder), 2) : NULL; }
+{ (void) d; (void) h; return (SEQ_NEXT(u8, env) & 1) ? new_decoder() : NULL; }
 
 static unsigned dangerous_symlink_calls_too_early;
 static int model_all_input_done(void);
